@@ -1,6 +1,7 @@
 (* Extraction of the C13 model to OCaml (ExtrOcamlBasic + ExtrOcamlString only; nat and Z stay inductive). *)
 From Coq Require Import Extraction ExtrOcamlBasic ExtrOcamlString.
-From Cb Require Import C13.Model.
+From Cb Require Import C13.Model C13.ModelSeq.
 Extraction Language OCaml.
 Extraction "C13/c13_model.ml" m_run_a s_run_a safe_a m_run_q s_run_q safe_q m_run_t s_run_t safe_t
-  classify build_err encode decode mech_match m_run_m s_run_m safe_m builtin_of_name.
+  classify build_err encode decode mech_match m_run_m s_run_m safe_m builtin_of_name
+  m_run_r s_run_r safe_r m_run_s s_run_s safe_s.
